@@ -84,6 +84,20 @@ def run(report: Report, tier, seed):
         contract="an adjacent store/load pair on an auto / reserved / low-id slot, observed later directly, from another routine, through a DynamicScratchVar or by reference, behaves the same under every setting (hand-written expected logs and final slot content)",
         bound=f"{len(opt_scenarios.KINDS)} slot kinds x {len(opt_scenarios.PLACES)} placements x {len(opt_scenarios.OBSERVERS)} observers x versions x 9 option settings",
         cases=sum(r["ran"] for r in sr), distinct_nontrivial=len(sj), failures=len(sbad)))
+    from . import recur_scenarios
+    rj = recur_scenarios.jobs(tier)
+    with ProcessPoolExecutor(max_workers=16) as ex:
+        rr = list(ex.map(recur_scenarios.case, rj, chunksize=1))
+    rbad = [r for r in rr if r["problems"]]
+    report.bounded.append(Bounded(
+        function="mutually / self recursive routines under every back end (spillLocalSlotsDuringRecursion vs frame pointers)",
+        contract="every (version, scratch_slots, frame_pointers) setting computes the Python recurrence, hence all settings agree; a local written before the re-entrant call is intact after it",
+        bound=f"{len(recur_scenarios.KINDS)}^2 caller/callee kinds (plain value / plain none / ABI output / ABI void) + self recursion, x 2 kinds of local, x versions 6..10 x 9 option settings x depths {recur_scenarios.DEPTHS}",
+        cases=sum(r["ran"] for r in rr), distinct_nontrivial=len(rj), failures=len(rbad)))
+    for b in rbad[:2]:
+        p0 = b["problems"][0]
+        report.violation(Violation(key=f"recursion:{b['job']}:{p0.get('setting')}", what=f"recursion scenario {b['job']} at v{p0.get('version')} under (scratch_slots, frame_pointers)={p0.get('setting')}: {p0['what']}"[:400],
+                                   replay={"recursion": b["job"], "problems": [{k: v for k, v in p.items() if k != "teal"} for p in b["problems"][:3]]}, confirmed_native=True))
     report.extra["explanation"] = ("P: option-default functions and the optimiser's removal precondition (pyvc); "
                                    "B: whole-program option independence on generated programs")
 
@@ -122,6 +136,11 @@ def replay(data):
         from . import abisub
         out = abisub.case(tuple(r["abisub"]))
         print(out["problems"][:2])
+        return 1 if out["problems"] else 0
+    if "recursion" in r:
+        from . import recur_scenarios
+        out = recur_scenarios.case(tuple(r["recursion"]))
+        print([{k: v for k, v in p.items() if k != "teal"} for p in out["problems"][:2]])
         return 1 if out["problems"] else 0
     if "scenario" in r:
         from . import opt_scenarios
